@@ -69,8 +69,12 @@ class Buf:
         return Buf(s.off, smin(s.n, k.stop))
 
     def __eq__(s, o):
-        # comparison of the first four bytes with b"ajkg": the payload is declared not shorten-compressed
-        return False
+        # comparison of the first four bytes with b"ajkg": the payload is declared not shorten-compressed, i.e. the data
+        # section does not START with the magic; any later block may well begin with these four bytes (arbitrary samples)
+        off = z3.simplify(s.off)
+        if z3.is_int_value(off) and off.as_long() == 0:
+            return False
+        return decide(z3.Bool('block_at_%s_starts_with_ajkg' % off))
 
     def _slen(s):
         return s.n
@@ -91,6 +95,10 @@ class File:
         if s.reads > 64:
             raise Inconclusive('read loop bound exceeded (unwinding assertion)')
         return b
+
+
+class ShortenEntered(Exception):
+    pass
 
 
 def slen(a):
@@ -163,6 +171,10 @@ def load():
                           name='sphere_under_test')
     ns['ALAW2PCM'] = Table(0)
     ns['ULAW2PCM'] = Table(1)
+
+    def shorten(inpbuf, *a, **k):
+        raise ShortenEntered(str(z3.simplify(inpbuf.off)) if hasattr(inpbuf, 'off') else '?')
+    ns['copy_shortened_samples'] = shorten
     return ns
 
 
@@ -212,6 +224,10 @@ def run_copy(cfg):
         hdr = (samptype, sampsize, SInt(sc), 8000, chan, '10')
         try:
             data = ns['copy_samples'](f, hdr, dt, IOError('x'))
+        except ShortenEntered as e:
+            if str(e) == '0':
+                return ('ok-empty',)        # cannot happen: the first block is declared not to start with the magic
+            return ('magic', 'the shorten decoder is entered for the block at data offset %s of an uncompressed file' % e, str(e))
         except Exception as e:
             symex.guard(e)
             return ('exception', '%s: %s' % (type(e).__name__, e))
@@ -254,6 +270,11 @@ def run_copy(cfg):
         m = ctx.model()
         w = dict(kind='copy', ch=chan, size=sampsize, coding=samptype, dt=cfg['dt'], what=res[0], detail=res[1] if len(res) > 1 else None,
                  sample_count=m.eval(z3.Int('sample_count'), True).as_long(), present_bytes=m.eval(z3.Int('present_bytes'), True).as_long())
+        if res[0] == 'magic':
+            try:
+                w['magic_offset'] = int(res[2])
+            except Exception:
+                w['magic_offset'] = 16384
         if res[0] == 'value':
             w['i'] = m.eval(z3.Int('i'), True).as_long()
             w['chan_idx'] = m.eval(z3.Int('ch'), True).as_long()
@@ -594,6 +615,8 @@ def replay(w):
     sc, present = w['sample_count'], w['present_bytes']
     rng = np.random.RandomState(3)
     raw = rng.randint(0, 256, size=present).astype(np.uint8).tobytes()
+    if w.get('magic_offset') is not None and w['magic_offset'] + 4 <= len(raw):
+        raw = raw[:w['magic_offset']] + b'ajkg' + raw[w['magic_offset'] + 4:]       # samples that happen to spell the shorten magic
     blob = make_sphere(raw, sc, ch, size, coding)
     dtype = {None: None, 'u1': np.uint8, 'i1': np.int8, 'i2': np.int16, 'i4': np.int32}[dt]
     with warnings.catch_warnings(record=True) as wl:
